@@ -4782,3 +4782,61 @@ ct-tag-number = 1668546817..1668612095"#;
     }
   }
 }
+
+/// Verification hooks: one-line forwarders to private leaf functions so an
+/// out-of-tree harness crate can drive them. Compiled only with
+/// `--cfg anweiss_cddl_verif`.
+#[cfg(anweiss_cddl_verif)]
+#[doc(hidden)]
+#[allow(missing_docs)]
+pub mod verif_hooks {
+  use super::Position;
+
+  pub fn parse_u64_lit(s: &str) -> Option<u64> {
+    super::parse_u64_lit(s)
+  }
+  pub fn parse_uint_lit(s: &str) -> Option<usize> {
+    super::parse_uint_lit(s)
+  }
+  pub fn parse_int_lit(s: &str) -> Option<isize> {
+    super::parse_int_lit(s)
+  }
+  pub fn hex_decode(input: &[u8]) -> Result<Vec<u8>, ()> {
+    super::hex_decode(input)
+  }
+  pub fn base64_decode(input: &[u8]) -> Result<Vec<u8>, &'static str> {
+    super::base64_decode(input)
+  }
+  pub fn clean_prefixed_byte_string(content: &str) -> String {
+    super::clean_prefixed_byte_string(content)
+  }
+  pub fn unescape_text(text: &str) -> String {
+    super::unescape_text(text)
+  }
+  pub fn compute_error_range(index: usize, input: &str) -> (usize, usize) {
+    super::compute_error_range(index, input)
+  }
+  pub fn scan_token_end(bytes: &[u8], start: usize) -> usize {
+    super::scan_token_end(bytes, start)
+  }
+  pub fn scan_token_start(bytes: &[u8], pos: usize) -> usize {
+    super::scan_token_start(bytes, pos)
+  }
+  #[cfg(feature = "ast-span")]
+  pub fn span_to_ast_span(start: usize, end: usize, input: &str) -> Option<(usize, usize, usize)> {
+    let span = pest::Span::new(input, start, end)?;
+    Some(super::pest_span_to_ast_span(&span, input))
+  }
+  pub fn span_to_position(start: usize, end: usize, input: &str) -> Option<Position> {
+    let span = pest::Span::new(input, start, end)?;
+    Some(super::pest_span_to_position(&span, input))
+  }
+  #[cfg(feature = "ast-span")]
+  pub fn position_from_ast_span(span: (usize, usize, usize), input: &str) -> Position {
+    super::position_from_ast_span(span, input)
+  }
+  #[cfg(all(feature = "ast-comments", feature = "ast-span"))]
+  pub fn line_of_byte(input: &str, byte: usize) -> usize {
+    super::line_of_byte(input, byte)
+  }
+}
